@@ -55,7 +55,8 @@ impl Property for C16 {
          N = sum of queue-name bytes, D = retained payload bytes, R = retained records (all measured through the log's \
          own read API: list_queues + range(..)): N + D <= memory_used_bytes <= N + D + 64*R, memory_used_bytes <= memory_allocated_bytes; a \
          truncate evicting e records of d bytes lowers memory_used_bytes by >= d and <= d + 64*e; when every queue \
-         is empty memory_used_bytes == N. evaluations = calls checked. non-trivial = a truncation evicting >= 1 \
+         is empty memory_used_bytes == N. A fixed large-queue campaign runs the same audit on one queue holding 9..14 MiB in \
+         ~1 MiB records through partial truncations. evaluations = calls checked. non-trivial = a truncation evicting >= 1 \
          record, or the all-empty baseline reached after >= 64 KiB had been retained; distinct = hash(op index, \
          concrete history)."
             .to_string()
@@ -74,6 +75,50 @@ impl Property for C16 {
 
     fn strategy(&self, tier: Tier) -> BoxedStrategy<Case> {
         super::case_strategy(&gen_cfg(tier), vec![Policy::DEFAULT, Policy::DoNothing], 1)
+    }
+
+    /// Large-queue campaign (deterministic, sharded): one queue holding 9..14 MiB in records of about 1 MiB (lengths not
+    /// multiples of anything), next to a small one; partial truncations at several positions, appends in between, then
+    /// emptied. Every call goes through the same audit as the generated histories (sizes the generator never reaches).
+    fn fixed_work(&self, env: &mut Env, shard: u32, shards: u32) -> Result<(), CaseError> {
+        use crate::ops::{Pay, QName};
+        let variants: u32 = if env.tier == Tier::Quick { 4 } else { 32 };
+        for variant in 0..variants {
+            if variant % shards != shard {
+                continue;
+            }
+            let mut rng = 0xB16_u64 ^ ((variant as u64) << 7);
+            let big = QName::plain("big");
+            let small = QName::plain("small");
+            let mut ops = vec![COp::Create { q: big.clone() }, COp::Create { q: small.clone() }];
+            ops.push(COp::Append { q: small.clone(), pos: None, batch: vec![Pay { len: 100, seed: 1, style: 0 }, Pay { len: 3000, seed: 2, style: 0 }] });
+            let count = 9 + crate::util::splitmix(&mut rng) % 5;
+            for idx in 0..count {
+                let len = 1_000_000 + (crate::util::splitmix(&mut rng) % 97_003) as u32;
+                if idx % 4 == 3 {
+                    ops.push(COp::Append { q: big.clone(), pos: None, batch: vec![Pay { len: len / 2, seed: idx, style: 0 }, Pay { len: len / 2 + 1, seed: idx + 100, style: 0 }] });
+                } else {
+                    ops.push(COp::Append { q: big.clone(), pos: None, batch: vec![Pay { len, seed: idx, style: 0 }] });
+                }
+            }
+            // partial truncations (positions generated; the queue holds count + count/4 records), appends in between
+            let records = count + count / 4;
+            let mut cut = crate::util::splitmix(&mut rng) % 2;
+            while cut + 1 < records {
+                ops.push(COp::Truncate { q: big.clone(), pos: cut });
+                if cut % 2 == 0 {
+                    ops.push(COp::Append { q: big.clone(), pos: None, batch: vec![Pay { len: 50_000 + (crate::util::splitmix(&mut rng) % 4099) as u32, seed: cut, style: 0 }] });
+                }
+                cut += 1 + crate::util::splitmix(&mut rng) % 3;
+            }
+            ops.push(COp::Truncate { q: small.clone(), pos: 0 });
+            ops.push(COp::Truncate { q: big.clone(), pos: records + 40 });
+            ops.push(COp::Truncate { q: small.clone(), pos: 1 });
+            let case = Case { policy: Policy::DoNothing, ops: ops.into_iter().map(crate::ops::SOp::Lit).collect(), cont: Vec::new(), words: Vec::new(), extra: None };
+            self.run(&case, env)?;
+            env.class("large-queue-campaign-history");
+        }
+        Ok(())
     }
 
     fn run(&self, case: &Case, env: &mut Env) -> Result<(), CaseError> {
